@@ -20,6 +20,7 @@ TNext == /\ l <= Len(Trace)
          /\ LET r == Trace[l] IN
               objs' = CASE r.op = "reset" -> [b \in ToSet(r.buckets) |-> <<>>]
                         [] r.op = "write" -> WriteEffect(objs, r.b, r.name, r.data)
+                        [] r.op = "copy" -> CopyEffect(objs, r.b, r.name, r.sb, r.sname)
                         [] OTHER -> objs
          /\ UNCHANGED <<res, last, hist>>
 
@@ -33,6 +34,11 @@ ExplainedRec(r) ==
                  /\ ToSet(r.disk) = DiskOf(o2)
                  /\ Len(r.disk) = Cardinality(DiskOf(o2))
                  /\ \A b \in DOMAIN o2 : \A n \in DOMAIN o2[b] : Inside(n)
+      [] r.op = "copy" ->
+            /\ r.ok = CopyOK(objs, r.sb, r.sname)
+            /\ LET o2 == CopyEffect(objs, r.b, r.name, r.sb, r.sname) IN
+                 /\ ToSet(r.disk) = DiskOf(o2)
+                 /\ Len(r.disk) = Cardinality(DiskOf(o2))
       [] r.op = "read" ->
             /\ r.ok
             /\ LET want == ReadResult(objs, r.b, r.name) IN
@@ -50,6 +56,10 @@ WellFormed == l <= Len(Trace) =>
     LET r == Trace[l] IN
       /\ (r.op \in {"write", "read"}) => (Ordinary(r.name) /\ Usable(r.b, r.name) /\ r.b \in DOMAIN objs)
       /\ r.op = "write" => (r.style \in WriteStyles /\ (r.style = "nowrite" => r.empty))
+      /\ r.op = "copy" => /\ Ordinary(r.name) /\ Ordinary(r.sname)
+                          /\ r.b \in DOMAIN objs /\ r.sb \in DOMAIN objs
+                          /\ Usable(r.b, r.name) /\ Usable(r.sb, r.sname)
+                          /\ <<r.b, r.name>> # <<r.sb, r.sname>>
 
 Accepted == TLCGet("stats").diameter = Len(Trace) + 1
 =============================================================================
